@@ -21,6 +21,7 @@ import (
 	"google.golang.org/grpc/codes"
 	"google.golang.org/grpc/status"
 	"google.golang.org/protobuf/proto"
+	"google.golang.org/protobuf/reflect/protoreflect"
 	"google.golang.org/protobuf/types/dynamicpb"
 	"larking.io/larking"
 )
@@ -500,6 +501,44 @@ func c15API(c *Ctx, optName string, opts ...larking.MuxOption) {
 			expectRelease("api-cancel", "server-stream-sending", "send-error")
 		}
 		cancel()
+	}
+
+	// --- the request stream ends INSIDE a message at every offset (after the 5-byte frame header that
+	// announces the payload, inside the header, inside the payload): the handler's receive ends with an
+	// error, never with the clean end-of-stream
+	{
+		m := fx.NewMsg("Req")
+		m.Set(m.Descriptor().Fields().ByName("name"), protoreflect.ValueOfString("cut-inside"))
+		enc, _ := proto.Marshal(m)
+		whole := grpcFrame(0, enc)
+		two := append(append([]byte{}, whole...), whole...)
+		for _, tr := range []string{"application/grpc+proto", "application/grpc-web+proto"} {
+			for cut := len(whole) + 1; cut < len(two); cut++ {
+				if cut > len(whole)+6 && cut < len(two)-2 && cut%3 != 0 {
+					continue
+				}
+				for _, eofd := range []bool{false, true} {
+					drain()
+					rd := &schedReader{data: append([]byte(nil), two[:cut]...), eofWithData: eofd}
+					r := httptest.NewRequest("POST", "/"+fxPkg+".Svc/BlockRecv", bodyReadCloser{rd})
+					r.ContentLength = -1
+					r.Header.Set("Content-Type", tr)
+					if tr == "application/grpc+proto" {
+						r.ProtoMajor, r.ProtoMinor = 2, 0
+						r.Header.Set("Te", "trailers")
+					}
+					done := make(chan struct{})
+					go func() { serveOn(fx.Mux, r); close(done) }()
+					what := fmt.Sprintf("%s: the request stream ends %d bytes into the second message (header 5 bytes, payload %d), eofWithData=%v", tr, cut-len(whole), len(enc), eofd)
+					c.Eval("api-cancel", what, true)
+					expectRelease("api-cancel", "stream-ends-inside-a-message/"+strings.SplitN(tr, "+", 2)[0], "recv-error")
+					select {
+					case <-done:
+					case <-time.After(3 * time.Second):
+					}
+				}
+			}
+		}
 	}
 
 	// --- plain HTTP/1.1 disconnect while the handler is blocked in RecvMsg / on ctx
